@@ -410,6 +410,10 @@ func (x *Exec) contractCall(st *State, fr *Frame, con *FuncContract, callee *ssa
 		// an extern without a frame clause is assumed not to write modelled memory (listed as an assumption)
 		x.C.used["frame-assumed:"+con.Key] = true
 	}
+	// what a contracted callee writes outside its explicit assigns clause is memory it allocated itself (its proved
+	// frame), i.e. memory above the allocation frontier at the time of the call -- not merely above the caller's
+	// entry frontier, which is the bound for the caller's own stores inside a loop
+	ms.direct = map[string]bool{}
 	x.applyMods(st, pre, ms, full)
 	type decLink struct {
 		ref string
